@@ -4,9 +4,9 @@
   selftest.py determinism [N]   every seed executed three times: inside a large batch, at another batch position
                                 with another chunk size and worker count, and alone through emit-plan + replay in a
                                 fresh process; event-log hashes must agree everywhere.  Default N = 2000 per variant.
-  selftest.py sensitivity       applies each patch of mutants/*.diff to a scratch copy of /repo/src (outside /repo
-                                and /verif), runs the quick check of the property named in the patch header against
-                                it and requires a VIOLATION; then requires the unchanged tree to be clean.
+  selftest.py sensitivity [ids] applies each seeded change seeded/<id>/patch.diff (written by independent sub-agents) to a
+                                scratch copy of /repo/src (outside /repo and /verif), runs the quick check of the property
+                                it breaks against the copy and requires a VIOLATION.
 Results: evidence/selftest.json.  Exit 0 iff everything agreed.
 """
 import json, os, re, shutil, subprocess, sys, tempfile, time
@@ -88,18 +88,19 @@ def determinism(n):
 
 def sensitivity():
     res = {"mutants": [], "ok": True}
-    mdir = os.path.join(VERIF, "mutants")
+    sdir = os.path.join(VERIF, "seeded")
+    only = [a for a in sys.argv[2:]]
     scratch_root = tempfile.mkdtemp(prefix="simmut", dir="/var/tmp")
     try:
-        for fn in sorted(os.listdir(mdir)):
-            if not fn.endswith(".diff"):
+        for fn in sorted(os.listdir(sdir)):
+            patchf = os.path.join(sdir, fn, "patch.diff")
+            if not os.path.exists(patchf) or (only and fn not in only):
                 continue
-            txt = open(os.path.join(mdir, fn)).read()
-            props = re.findall(r"^# property: (C\d+)", txt, re.M)
-            scratch = os.path.join(scratch_root, fn[:-5])
+            props = [fn.split("_")[0]]
+            scratch = os.path.join(scratch_root, fn)
             os.makedirs(scratch)
             shutil.copytree("/repo/src", os.path.join(scratch, "src"), ignore=shutil.ignore_patterns("*.o", "*.lo", ".libs", ".deps", "*.la"))
-            p = subprocess.run(["patch", "-p1", "-s", "-d", scratch, "-i", os.path.join(mdir, fn)], stdout=subprocess.PIPE, stderr=subprocess.STDOUT, text=True)
+            p = subprocess.run(["patch", "-p1", "-s", "-d", scratch, "-i", patchf], stdout=subprocess.PIPE, stderr=subprocess.STDOUT, text=True)
             if p.returncode != 0:
                 res["mutants"].append({"mutant": fn, "error": "patch does not apply: " + p.stdout[-300:]})
                 res["ok"] = False
@@ -107,7 +108,7 @@ def sensitivity():
             for prop in props:
                 out = os.path.join(scratch, "out_" + prop)
                 os.makedirs(out)
-                env = dict(os.environ, VERIF_REPO=scratch, VERIF_OUT=out, VERIF_SCALE=os.environ.get("VERIF_MUT_SCALE", "0.5"))
+                env = dict(os.environ, VERIF_REPO=scratch, VERIF_OUT=out, VERIF_SCALE=os.environ.get("VERIF_MUT_SCALE", "1"))
                 t0 = time.time()
                 r = subprocess.run([sys.executable, os.path.join(VERIF, "run_check.py"), prop, "--tier", "quick"], stdout=subprocess.PIPE, stderr=subprocess.STDOUT, text=True, env=env)
                 caught = r.returncode == 1 and ("VIOLATION property=%s" % prop) in r.stdout
